@@ -2,7 +2,6 @@ package idlgen
 
 import (
 	"fmt"
-	"path/filepath"
 	"strings"
 )
 
@@ -108,13 +107,11 @@ func (p *Program) renderFile(fi int) string {
 	if f.GoNS != "" {
 		fmt.Fprintf(&sb, "namespace go %s\n", f.GoNS)
 	}
-	dir := filepath.Dir(f.Path)
+	// thriftgo looks an include path up relative to the working directory FIRST, then relative to the
+	// including file: paths are written relative to the program root (= directory of Files[0]) and thriftgo
+	// must run with that directory as its working directory (batch does).
 	for _, k := range f.Includes {
-		rel, err := filepath.Rel(dir, p.Files[k].Path)
-		if err != nil {
-			rel = p.Files[k].Path
-		}
-		fmt.Fprintf(&sb, "include \"%s\"\n", filepath.ToSlash(rel))
+		fmt.Fprintf(&sb, "include \"%s\"\n", p.Files[k].Path)
 	}
 	sb.WriteByte('\n')
 	order := f.Order
